@@ -823,9 +823,43 @@ fn shrink_fblock(b: &FBlock, emit: &mut dyn FnMut(FBlock)) {
     }
 }
 
+fn map_cond(c: &Cond, f: &dyn Fn(u8) -> u8) -> Cond {
+    match c {
+        Cond::Truthy(x) => Cond::Truthy(f(*x)),
+        Cond::EqNil(x) => Cond::EqNil(f(*x)),
+        Cond::NeNil(x) => Cond::NeNil(f(*x)),
+        Cond::TypeEq(x, t) => Cond::TypeEq(f(*x), *t),
+        Cond::TypeNe(x, t) => Cond::TypeNe(f(*x), *t),
+        Cond::EqLit(x, l) => Cond::EqLit(f(*x), *l),
+        Cond::Not(i) => Cond::Not(Box::new(map_cond(i, f))),
+        Cond::And(l, r) => Cond::And(Box::new(map_cond(l, f)), Box::new(map_cond(r, f))),
+        Cond::Or(l, r) => Cond::Or(Box::new(map_cond(l, f)), Box::new(map_cond(r, f))),
+    }
+}
+/// rename the locals everywhere
+pub fn map_vars(b: &FBlock, f: &dyn Fn(u8) -> u8) -> FBlock {
+    b.iter()
+        .map(|s| match s {
+            FSt::Assign(x, l) => FSt::Assign(f(*x), *l),
+            FSt::OrAssign(x, l) => FSt::OrAssign(f(*x), *l),
+            FSt::AndOr(x, c, l1, l2) => FSt::AndOr(f(*x), map_cond(c, f), *l1, *l2),
+            FSt::IfReturn(c) => FSt::IfReturn(map_cond(c, f)),
+            FSt::IfBreak(c) => FSt::IfBreak(map_cond(c, f)),
+            FSt::If(c, b) => FSt::If(map_cond(c, f), map_vars(b, f)),
+            FSt::IfElse(c, b1, b2) => FSt::IfElse(map_cond(c, f), map_vars(b1, f), map_vars(b2, f)),
+            FSt::While(c, b) => FSt::While(map_cond(c, f), map_vars(b, f)),
+            FSt::Repeat(b, c) => FSt::Repeat(map_vars(b, f), map_cond(c, f)),
+            FSt::ForNum(n, b) => FSt::ForNum(*n, map_vars(b, f)),
+            FSt::ForIn(b) => FSt::ForIn(map_vars(b, f)),
+        })
+        .collect()
+}
+
 pub fn fshrinks(p: &FBlock) -> Vec<FBlock> {
     let mut out = Vec::new();
     shrink_fblock(p, &mut |b| out.push(b));
+    out.push(map_vars(p, &|_| 0));
+    out.push(map_vars(p, &|x| 1 - x));
     out.retain(|b| fvalid(b, false) && b != p);
     out
 }
